@@ -363,7 +363,7 @@ func (s *lockSys) cmdGrant(pid int, call, fault string) bool {
 func (s *lockSys) cmdCancel(pid int) bool {
 	s.mu.Lock()
 	p := s.procs[pid]
-	if !p.inCall || p.kind != "ctx" {
+	if !p.inCall || p.kind == "lock" {
 		s.mu.Unlock()
 		return false
 	}
@@ -710,8 +710,15 @@ func (s *lockSys) runStress(rnd *rand.Rand, rounds int) {
 					d := time.Duration(r.Intn(300)) * time.Microsecond
 					ctx, cancel = context.WithTimeout(context.Background(), d)
 				}
+				dead := kind == "try" && r.Intn(3) == 0 // TryLock with a context that is already done
+				if dead {
+					cancel()
+				}
 				s.mu.Lock()
 				s.ev(map[string]any{"e": "call", "p": pid, "kind": kind, "late": false})
+				if dead {
+					s.ev(map[string]any{"e": "cancel", "p": pid, "acq": false})
+				}
 				s.mu.Unlock()
 				res := "ok"
 				panicked, _ := callPanics(func() {
